@@ -14,6 +14,7 @@ so the 18 checks of one run share one computation."""
 import os, json, hashlib, glob
 from .proto import hx, unhx, sexp_str, VERIF, BUILD, SplitMix
 from .core import both, canon
+from .proto import run_impl, run_model
 
 # which properties a disagreement on a request kind concerns
 KIND_PROPS = {
@@ -289,9 +290,18 @@ def run_wild(seed, tier):
     rng = SplitMix(seed * 7919 + 17)
     n_hist, steps = (24, 260) if tier == "quick" else (400, 400)
     reqs, impl, model, bounds = [], [], [], []
+    stuck = 0
     for _ in range(n_hist):
         h = gen_history(rng.fork(), steps)
-        i, m = both(h, timeout=900)
+        if stuck >= 2:
+            # the crate hung / died in two histories already: the verdict is in, do not wait for more time limits
+            break
+        # a history normally takes well under a second; a deadlock or an endless loop must not stall the check for long:
+        # per-line flushing, a short limit, and no second attempt after the first request that does not return
+        i = run_impl(h, timeout=60, flush=True, max_aborts=1)
+        m = run_model(h, timeout=300)
+        if any(a in ("HANG", "ABORT", "SKIPPED") for a in i):
+            stuck += 1
         bounds.append((len(reqs), len(reqs) + len(h)))
         reqs += h
         impl += i[:len(h)] + ["MISSING"] * (len(h) - len(i))
